@@ -13,14 +13,14 @@ TRUSTED = [
     'symbol models (with explicit index / nil / bounds checks as panic outcomes) tied by correspondence',
 ]
 ASSUMPTIONS = ['images are those constructible with bitmap.New(rect)+SetBinary: Pix has Stride*Dy bytes']
-PARTIAL = 'no-panic is proved for the entry validation of the decoder models; the remaining steps (RS: C14.dec_no_panic; bit buffer: C16) are proved separately; their composition over all bitmaps is exercised'
+PARTIAL = 'QR: totality (no panic, termination) is a theorem for every well-formed bitmap; Micro QR / rMQR: wrong-size bitmaps are proved to be errors, totality on right-size bitmaps is exercised; the allocation bound is measured, not proved'
 MANIFEST = {
-    'technique': 'Lean 4: panic outcomes explicit in the decoder models; entry-validation lemmas + proved no-panic of RS decoding (C14) and of the bit buffer (C16); malformed-bitmap differential runs under recover()',
-    'text': ('Every index expression, nil dereference, bounds comparison and explicit panic of the three DecodeBitmap functions is an explicit branch of the model. Props/C06.lean proves that a bitmap '
-             'whose bounds are not exactly those of the version named by its format information is answered with an error before any table is indexed, and imports the no-panic / termination '
-             'theorems of the Reed-Solomon decoder (C14) and the bit buffer (C16). Totality over arbitrary bitmaps (sizes, origins, contents, wrong-symbology feeds) is exercised under recover() with '
-             'allocation measurement, on implementation and model.'),
-    'note': 'Trusted: Lean kernel; models tied by correspondence; allocation bound is measured, not proved.',
+    'technique': 'Lean 4: total no-panic/termination theorem for the QR decoder model (every index, nil, bound and fuel branch), wrong-size rejection for Micro QR / rMQR; malformed-bitmap differential runs under recover()',
+    'text': ('QRV/Props/C06.lean proves for the QR decoder model, in which every Go index expression, nil dereference, slice bound and explicit panic is an explicit branch and every loop has fuel: for EVERY '
+             'bitmap constructible with bitmap.New+SetBinary (any size, origin, contents) DecodeBitmap returns a result or an error - never a panic, never fuel exhaustion (placement walk, de-interleave, '
+             'Reed-Solomon incl. Euclid/Chien, segment loop). For Micro QR and rMQR a bitmap whose size matches no version is proved to be answered with an error. Totality of those two decoders on right-size '
+             'bitmaps and the allocation bound are exercised on malformed bitmaps (sizes, origins, cropped/padded/cross-fed symbols, arbitrary codewords incl. phantom error locations) under recover().'),
+    'note': 'Trusted: Lean kernel; models tied by correspondence; allocation bound is measured by the harness, not proved.',
 }
 
 
